@@ -45,10 +45,16 @@ def run(ctx):
     ctx.rule("R18.1", "an exception raised by user code cannot leave the infrastructure entry point; it is logged through the script's logger", floor=10)
     for uid, labels in ENTRY_POINTS.items():
         f = program.func(uid)
-        present = {call_name(n) for n in body_walk(f) if isinstance(n, ast.Call)}
-        missing = [l for l in labels if l not in present]
-        if missing:
-            raise AnalysisError(f"{uid}: user-code call(s) {missing} not found - the entry point table no longer matches the code")
+        # the table names the user-code calls by method (the receiver's variable name is free to change)
+        present = {call_name(n) for n in body_walk(f) if isinstance(n, ast.Call)} - {None}
+        resolved = []
+        for l in labels:
+            meth = l.split(".")[-1]
+            hits = sorted(p for p in present if p == l) or sorted(p for p in present if p.split(".")[-1] == meth and "." in p)
+            if not hits:
+                raise AnalysisError(f"{uid}: user-code call(s) [{l!r}] not found - the entry point table no longer matches the code")
+            resolved.extend(hits)
+        labels = list(dict.fromkeys(resolved))
         pol = FlowPolicy(program, events=[lambda l: l if l and l.split(".")[-1] in LOGGERS else None], may_raise_all=False, cancel=False,
                          locals_={"self", "cls"}, record_atoms=False)
         pol.raising_labels = set(labels)
@@ -75,6 +81,22 @@ def run(ctx):
             unl = sorted({o for o in unlogged if f"via {lab} " in o})
             ctx.check(not unl, "R18.1", uid, f"exceptions from {lab} are logged on the script logger",
                       msg=f"{uid}: an exception from {lab} is swallowed without log_exception/handle_exception", key=f"unlogged {lab}", node=f, rel=uid.split("::")[0])
+
+    ctx.rule("R18.9", "an exception in a task's done callback is reported once on the script's logger and does not keep the task's other done callbacks from running", floor=2)
+    from .c14 import callback_mutation_table
+    callback_mutation_table(ctx, program, "R18.9", only=("raise", "raise-last"))
+
+    ctx.rule("R18.10", "native frames (compiled helpers) are reported at the position recorded in the traceback entry (tb_lasti / tb_lineno): the frame object's own "
+             "f_lasti / f_lineno moves on when the frame keeps running (finally blocks, handlers that raise again) and is never read by the formatter", floor=1)
+    fmt = program.cls("eval.py::EvalExceptionFormatter")
+    rf = program.func("eval.py::EvalExceptionFormatter.real_frame")
+    reads = [n for n in ast.walk(fmt) if isinstance(n, ast.Attribute) and n.attr in ("f_lasti", "f_lineno")]
+    uses_tb = [n for n in body_walk(rf) if isinstance(n, ast.Attribute) and n.attr in ("tb_lasti", "tb_lineno")]
+    if not uses_tb:
+        raise AnalysisError("EvalExceptionFormatter.real_frame no longer reads tb_lasti/tb_lineno: the position rule has lost its anchor")
+    ctx.check(not reads, "R18.10", "eval.py::EvalExceptionFormatter.real_frame", "frame positions come from the traceback entry",
+              msg=f"EvalExceptionFormatter reads `{short(reads[0]) if reads else ''}`: that is the last instruction the frame executed at all, not where the exception passed through it - "
+              f"a fault inside try/finally (or re-raised from a handler) in a compiled helper is reported at the wrong line", key="frame position source", node=reads[0] if reads else rf, rel="eval.py")
 
     ctx.rule("R18.3", "no user-code exception reaches the handler that ends a trigger loop", floor=1)
     uid = "trigger.py::TrigInfo.trigger_watch"
